@@ -827,6 +827,7 @@ def r115(rep: Report, ctx: Ctx) -> None:
     c07.loop_boundary_evidence(rep, ctx, "R1.15")
     c07.parent_rewiring(rep, ctx, "R1.15")
     c07.rewiring_order(rep, ctx, "R1.15")
+    c07.graph_helpers(rep, ctx, "R1.15")
     from .loopspec import TABLE, check_table
     check_table(rep, ctx, "R1.15", list(TABLE))
 
